@@ -79,6 +79,50 @@ def run(tier, seed):
                                    "order %s: outputs differ by %g, logabsdet %r vs %r" % (
                                        order, float((c[1][0] - want[0]).abs().max()), float(c[1][1][0]), float(want[1][0])), case)
             t.cache.invalidate(); t.use_cache(was_cache); t.train(was_training)
+            # histories around a parameter move: whatever the order of eval() / train() / use_cache() calls, a cached pass after the
+            # parameters moved describes the CURRENT weight(), weight_inverse() and logabsdet()
+            import copy
+            saved = copy.deepcopy(t.state_dict())
+            hists = (("eval", "cache-on", "pass", "cache-off", "train", "move", "eval", "cache-on"),
+                     ("eval", "cache-on", "pass", "train", "move", "eval"),
+                     ("eval", "cache-on", "pass", "cache-off", "train", "cache-on", "move", "eval"),
+                     ("eval", "cache-on", "pass", "train", "cache-off", "move", "cache-on", "eval"))
+            for hist in hists:
+                t.load_state_dict(saved); t.train(); t.use_cache(False); t.cache.invalidate()
+                ok_ = True
+                for step in hist:
+                    if step == "eval":
+                        t.eval()
+                    elif step == "train":
+                        t.train()
+                    elif step == "cache-on":
+                        t.use_cache(True)
+                    elif step == "cache-off":
+                        t.use_cache(False)
+                    elif step == "pass":
+                        with torch.no_grad():
+                            ok_ = ok_ and attempt(t.forward, x)[0] == "ok" and attempt(t.inverse, x)[0] == "ok"
+                    elif step == "move":
+                        with torch.no_grad():
+                            for q_ in t.parameters():
+                                q_.mul_(1.25).add_(0.05)
+                if not ok_:
+                    continue
+                with torch.no_grad():
+                    now = attempt(lambda: (t.weight(), t.weight_inverse(), t.logabsdet()))
+                    cf, ci = attempt(t.forward, x), attempt(t.inverse, x)
+                if now[0] == "ok" and cf[0] == "ok" and ci[0] == "ok" and all(bool(torch.isfinite(v_).all()) for v_ in now[1]):
+                    W2, Wi2, lad2 = now[1]
+                    tol2 = 1e-9 * max(1.0, float(torch.linalg.cond(W2))) * (1 + float(x.abs().max()))
+                    e_f = float((cf[1][0] - (x @ W2.T + t.bias)).abs().max())
+                    e_i = float((ci[1][0] - ((x - t.bias) @ Wi2.T)).abs().max())
+                    e_l = max(float((cf[1][1] - lad2).abs().max()), float((ci[1][1] + lad2).abs().max()))
+                    if e_f > tol2 or e_i > tol2 or e_l > 1e-9 * max(1.0, nfeat):
+                        ck.finding("linear:%s:cached-pass-stale-after-parameter-move" % name,
+                                   "history %s: forward differs from W x + b by %g, inverse from W^-1 (x - b) by %g, logabsdet by %g"
+                                   % (" > ".join(hist), e_f, e_i, e_l), dict(case, history=list(hist)))
+                        break
+            t.load_state_dict(saved); t.cache.invalidate(); t.use_cache(was_cache); t.train(was_training)
         back = t.inverse(y)[0]
         if float((back - x).abs().max()) > tol * (1 + float(x.abs().max())):
             ck.finding("linear:%s:inverse-does-not-undo-forward" % name, "max err %g" % float((back - x).abs().max()), case)
